@@ -105,7 +105,7 @@ def _run_cases(kind, specs, timeout, label, workers=None):
     workers = workers or max(2, min(8, (os.cpu_count() or 4) // 2))
     failures, sigs, extra = [], set(), []
     with concurrent.futures.ThreadPoolExecutor(max_workers=workers) as pool:
-        for spec, res in zip(specs, pool.map(lambda s: _spawn(kind, s, timeout), specs)):
+        for spec, res in zip(specs, pool.map(lambda s: _spawn(s.get("kind", kind), s, s.get("timeout", timeout)), specs)):
             if "problem" in res:
                 failures.append(
                     dict(name=f"{label} case did not complete ({res['problem'].split(' ')[0]})", case=spec["case"], problem=res["problem"], stderr=res.get("stderr", ""))
@@ -221,23 +221,18 @@ def _c20_specs(tier, seed):
 
 
 def run_c20(tier, seed):
-    n_graphs = 150 if tier == "quick" else 2500
-    ident = _spawn("c20a", dict(case="identifiers", seed=seed, n=n_graphs), timeout=35 if tier == "quick" else 200)
-    failures, cases, sigs = [], 0, set()
-    if "problem" in ident:
-        failures.append(dict(name="C20 identifier case did not complete", case=f"identifiers seed={seed}", problem=ident["problem"], stderr=ident.get("stderr", "")))
-    else:
-        failures += [f for f in ident["failures"] if _on(f["name"])]
-        cases += ident["info"]["cases"]
-        sigs |= {json.dumps(s) for s in ident["sigs"]}
-    specs = _c20_specs(tier, seed)
-    f2, s2, _ = _run_cases("c20b", specs, timeout=60, label="C20")
+    # (a) identifiers: chunks of random graphs (each chunk also runs the systematic positions), in parallel with (b)
+    chunks, per_chunk = (1, 150) if tier == "quick" else (6, 330)
+    ident = [dict(kind="c20a", case=f"identifiers seed={seed * 1000 + i} n={per_chunk}", seed=seed * 1000 + i, n=per_chunk, timeout=35 if tier == "quick" else 150) for i in range(chunks)]
+    repair = _c20_specs(tier, seed)
+    failures, sigs, extra = _run_cases("c20b", ident + repair, timeout=60, label="C20")
+    graphs = sum(e["cases"] for e in extra if e and "cases" in e)
     return dict(
         tool="cpython: real identifiers of graphs with @deprecate classes; real fix_deprecated on workspaces populated by real runs, then resubmission",
-        bound=f"{cases} graphs (deprecated instance as root/param/nested/list/dict, task) + {len(specs)} repair cases: 4 variants x 6 states x 3 modes x resubmit dry/real",
-        cases=cases + len(specs),
-        distinct=len(sigs) + len(s2),
-        failures=_dedup(failures + f2),
+        bound=f"{graphs} graphs (deprecated instance as root/param/nested/list/dict, task) + {len(repair)} repair cases: 4 variants x 6 states x 3 modes x resubmit dry/real",
+        cases=graphs + len(repair),
+        distinct=len(sigs),
+        failures=_dedup(failures),
     )
 
 
@@ -431,7 +426,7 @@ def _worker_c16(spec):
     def fail(name, **kw):
         failures.append(dict(name=name, case=case, **kw))
 
-    if True:
+    if True:  # (the temporary directory spec["tmp"] is owned and removed by the driver)
         tmp = spec["tmp"]
         wd = Path(tmp) / "ws"
         wd.mkdir()
@@ -686,7 +681,7 @@ def _worker_c20b(spec):
     def rel(cfg):
         return f"{cfg.__xpmtype__.identifier}/{cfg.__xpm__.identifier.all.hex()}"
 
-    if True:
+    if True:  # (the temporary directory spec["tmp"] is owned and removed by the driver)
         tmp = spec["tmp"]
         ws = Path(tmp) / "ws"
         ws.mkdir()
@@ -869,7 +864,7 @@ def _worker_c04(spec):
                     doomed.add(n)
                     changed = True
 
-    if True:
+    if True:  # (the temporary directory spec["tmp"] is owned and removed by the driver)
         tmp = spec["tmp"]
         wd = Path(tmp) / "ws"
         wd.mkdir()
